@@ -1,4 +1,5 @@
 """C19 - reaction equations: text -> stoichiometry -> text, orders, rate-constant dimensions, split, K, network validity."""
+import math
 import random
 from fractions import Fraction as Fr
 
@@ -268,8 +269,14 @@ def k_in_double_range(c):
     decided on the case, not on what the implementation returned"""
     if tuple(c["kf_dim"]) != sysgen.kdim(c["n"]) or tuple(c["kr_dim"]) != sysgen.kdim(c["m"]):
         return True
+    text = "text" in c.get("form", "")
+
     def given(q, dim):
-        return (Fr(q["bare"]), c["units"]) if "bare" in q else (Fr(q["v"]), q["sys"])
+        if "bare" in q:
+            return Fr(q["bare"]), c["units"]
+        # a constant written as text names no unit for a base with exponent 0: the parser then takes the default unit of that base
+        sy = [u if (e != 0 or not text) else dflt for u, e, dflt in zip(q["sys"], dim, ("µm", "s", "molecule"))]
+        return Fr(q["v"]), sy
     (vf, sf), (vr, sr) = given(c["kf"], c["kf_dim"]), given(c["kr"], c["kr_dim"])
     tabs = (si.SI_SPACE, si.SI_TIME, si.SI_AMOUNT)
     vals, f = [], Fr(1)
@@ -291,7 +298,8 @@ def emit_k(c, o):
     if "raised" in o:
         return gc, "None"
     def go(q):
-        return "{| qv := %s; qu := %s; qd := %s |}" % (g_float(q[0]), si.g_usys(q[1]), si.g_dim(q[2]))
+        v = q[0] if math.isfinite(q[0]) else 1e300       # a non-finite value where the case stays inside binary64: judged (and rejected), not dropped
+        return "{| qv := %s; qu := %s; qd := %s |}" % (g_float(v), si.g_usys(q[1]), si.g_dim(q[2]))
     K = "None" if o["K"] is None or isinstance(o["K"], str) else "(Some %s)" % go(o["K"])
     return gc, "(Some (%s, %s, %s, %s, %s))" % (go(o["kf"]), go(o["kr"]), g_list([go(q) for q in o["split"]]), K,
                                                 g_bool(o["split_sto"][0] == o["split_sto"][2] and o["split_sto"][1] == [-v for v in o["split_sto"][2]]
